@@ -25,6 +25,11 @@
                                           `XMLSchemaBase._validate_references` (schemas.py:1410-1414),
                                           which still indexes `identities[self.refer]` directly: b32146f
                                           did NOT touch that path and nothing here speaks about it.
+       `St.order` / `.collectOpen`        `collect_key_fields` since 1e49c64: the loop runs over ALL counters of
+                                          `context.identities` in dict (insertion) order, skips the disabled ones
+                                          and the nodes the instance selector does not pick, and a node outside
+                                          the qualified node set of a keyref / unique `continue`s — the other
+                                          open constraints still see the node (`collectOpen_spec`)
        `setCtx` / `nsWalk` / `nsAt`       the namespace map `collect_key_fields` reads (§2b): the stack of
                                           xmlns contexts of namespaces.py:193-236 driven by the call sites
                                           groups.py:1008, elements.py:645, 833 — QName fields are resolved
@@ -408,14 +413,17 @@ structure Env where
     (identities.py:408) finds the one installed by 876-882.  Hence no crash component. -/
 structure St where
   ctrs : Nat → Option Ctr
+  order : List Nat                      -- the keys of the dict `context.identities` in insertion order
   errs : List Err                       -- newest first
   nested : List Nat                     -- constraints whose *enabled* counter was reset by a nested scope
   deriving Inhabited
 
-def St.init : St := ⟨fun _ => none, [], []⟩
+def St.init : St := ⟨fun _ => none, [], [], []⟩
 
+/-- `context.identities[c] = k`: a new key goes to the end of the dict, an existing key keeps its place -/
 def St.put (st : St) (c : Nat) (k : Ctr) : St :=
-  { st with ctrs := fun x => if x = c then some k else st.ctrs x }
+  { st with ctrs := fun x => if x = c then some k else st.ctrs x,
+            order := if (st.ctrs c).isSome then st.order else st.order ++ [c] }
 
 def St.err (st : St) (e : Err) : St := { st with errs := e :: st.errs }
 
@@ -426,7 +434,10 @@ def enterOne (n : Nat) (st : St) (c : Nat) : St :=
   | some k => if k.enabled then { st' with nested := c :: st'.nested } else st'
   | none => st'
 
-/-- elements.py:903-946 for one identity of `selected_by` -/
+/-- elements.py:912-950, the body of the loop for one (identity, counter) item of `context.identities`:
+    a disabled counter and a node the instance selector does not pick are skipped (913-926); the
+    tuple is offered to the counter; `continue` for a node outside the qualified node set of a
+    keyref / unique (941-945) ends THIS item only -/
 def collectOne (env : Env) (n : Nat) (st : St) (c : Nat) : St :=
   match st.ctrs c with
   | none => st
@@ -478,7 +489,9 @@ def leaveOne (env : Env) (n : Nat) (st : St) (c : Nat) : St :=
 
 inductive Ev where
   | enter (n : Nat) (cons : List Nat)       -- element start: its declaration's identities
-  | collect (n : Nat) (cands : List Nat)    -- after the content: `selected_by` of the declaration
+  | collect (n : Nat) (cands : List Nat)    -- the loop body for an explicit list of constraints
+  | collectOpen (n : Nat)                   -- after the content: `collect_key_fields` (1e49c64):
+                                            --   `for identity, counter in list(context.identities.items())`
   | leave (n : Nat) (cons : List Nat)
   deriving Repr, Inhabited
 
@@ -486,7 +499,38 @@ def step (env : Env) (st : St) (ev : Ev) : St :=
   match ev with
   | .enter n cs => cs.foldl (enterOne n) st
   | .collect n cs => cs.foldl (collectOne env n) st
+  | .collectOpen n => st.order.foldl (collectOne env n) st
   | .leave n cs => cs.foldl (leaveOne env n) st
+
+/-- what one item of the loop does, as a function of its own counter only: the counter afterwards
+    and the error raised -/
+def toErr (c n : Nat) : RowErr → Err
+  | .dup => .dup c n
+  | .missing i => .missing c n i
+  | .multi i => .multi c n i
+
+def collectRes (env : Env) (n c : Nat) : Option Ctr → Option Ctr × Option Err
+  | none => (none, none)
+  | some k =>
+    if !k.enabled || !env.sel c k.scope n then (some k, none)
+    else
+      match offer (env.kind c) k.table (env.fields c n) with
+      | (table, e) => (some { k with table := table }, e.map (toErr c n))
+
+/-- a node outside the qualified node set of keyref `c` (the `continue` of line 942) -/
+def keyrefSkips (env : Env) (n : Nat) (st : St) (c : Nat) : Bool :=
+  match st.ctrs c with
+  | none => false
+  | some k => k.enabled && env.sel c k.scope n && env.kind c == .keyref &&
+      (match tupleOf .keyref (env.fields c n) 0 with
+       | .ok t => t.any Option.isNone
+       | .error _ => false)
+
+/-- NOT the code: the loop with `break` in place of the `continue` of line 942 (the rest of the
+    open constraints never sees the node).  Only used to state that the two differ. -/
+def collectBreak (env : Env) (n : Nat) : List Nat → St → St
+  | [], st => st
+  | c :: cs, st => if keyrefSkips env n st c then st else collectBreak env n cs (collectOne env n st c)
 
 def run (env : Env) (evs : List Ev) : St := evs.foldl (step env) St.init
 
@@ -509,6 +553,8 @@ structure Schema where
   deriving Repr, Inhabited
 
 def Schema.consOf (sch : Schema) (decl : Nat) : List Nat := (sch.declCons.lookup decl).getD []
+/-- the static binding (`selected_by`): only a cache of field selectors since 1e49c64, no longer consulted by
+    the walk (`Node.events` uses `.collectOpen`) -/
 def Schema.selectedBy (sch : Schema) (decl : Nat) : List Nat :=
   (sch.cons.filter (·.bound.contains decl)).map (·.id)
 def Schema.con? (sch : Schema) (c : Nat) : Option Con := sch.cons.find? (·.id == c)
@@ -518,7 +564,7 @@ mutual
 def Node.events (sch : Schema) : Node → List Ev
   | .mk i d _ _ _ _ _ kids =>
     .enter i (sch.consOf d) :: (eventsList sch kids ++
-      [.collect i (sch.selectedBy d), .leave i (sch.consOf d)])
+      [.collectOpen i, .leave i (sch.consOf d)])
 def eventsList (sch : Schema) : List Node → List Ev
   | [] => []
   | k :: ks => k.events sch ++ eventsList sch ks
